@@ -406,6 +406,10 @@ def suites(tier, seed):
         else:
             f = {"id": 1, "tags": [], "bg": None, "items": [{"kind": "rule", "id": 5, "tags": [], "bg": bg, "items": [outline]}]}
         cases.append({"features": [f], "cfg": cfg})
+    # continue_after_failed_step switched on per scenario from the before_scenario hook instead of the class attribute
+    for i, c in enumerate(cases):
+        if c["cfg"].get("continue_after_failed") and "before_scenario" in c["cfg"].get("hooks", []) and i % 2:
+            c["cfg"]["continue_via_hook"] = True
     seqs = {"name": "sequences", "cases": cases, "impl": rc.impl_run, "oracle": oracle, "nontrivial": nontrivial,
             "histogram": rc.histogram, "shrink": rc.shrink_program, "exhaustive": True,
             "bound": "all outcome sequences over %d kinds up to length %d (x variants), random up to length 10" % (len(ALPHA), L),
